@@ -172,6 +172,44 @@ pub fn run(ctx: &Ctx) -> i32 {
                 judge(&kv, GEOMS[0], "set abc2, default geometry", ev);
             }
         }
+        // equivalent WIDE sub-automata under different prefixes: {p}{byte} for several prefixes p and the same N bytes
+        // (N over the fan-out palette, i.e. with and without index table) must be emitted once
+        for (fi, &fo) in [2usize, 31, 32, 33, 40, 63, 64, 65, 200, 255, 256].iter().enumerate() {
+            for variant in 0..6 {
+                if (fi * 6 + variant) % n != shard {
+                    continue;
+                }
+                let mut r = Rng::new(ctx.seed, 0x12_b1d + (fi * 6 + variant) as u64);
+                let mut bytes: Vec<u8> = (0..=255u8).collect();
+                for i in 0..256 {
+                    let j = i + r.usize(256 - i);
+                    bytes.swap(i, j);
+                }
+                bytes.truncate(fo);
+                bytes.sort();
+                let prefixes: Vec<Vec<u8>> = match variant % 3 {
+                    0 => vec![b"a".to_vec(), b"b".to_vec()],
+                    1 => vec![b"a".to_vec(), b"ab".to_vec(), b"b".to_vec(), b"ba".to_vec()],
+                    _ => vec![vec![0x00], vec![0x00, 0x00, 0x01], vec![0xff]],
+                };
+                let mut kv: Kv = vec![];
+                for (pi, p) in prefixes.iter().enumerate() {
+                    for (bi, b) in bytes.iter().enumerate() {
+                        let mut k = p.clone();
+                        k.push(*b);
+                        // maps: value = per-prefix base + per-byte weight, so the wide nodes stay equivalent once the
+                        // common prefix of the outputs has moved onto the incoming transition
+                        let v = if variant < 3 { 0 } else { (pi as u64 + 1) * 1_000_000 + (bi as u64 % 7) * 3 };
+                        kv.push((k, v));
+                    }
+                }
+                kv.sort();
+                kv.dedup_by(|a, b| a.0 == b.0);
+                ev.fps.insert(crate::rng::fnv_u64(0x12_b1d, (fi * 6 + variant) as u64));
+                judge(&kv, GEOMS[0], "equivalent wide nodes under several prefixes", ev);
+                ev.count("builds:duplicated-wide-subautomata");
+            }
+        }
         // random sets/maps up to 3000 keys with heavy suffix sharing, all geometries
         let nrand = ctx.tier.pick(2000, 50_000);
         for i in 0..nrand {
@@ -224,7 +262,7 @@ pub fn run(ctx: &Ctx) -> i32 {
             level: "exploration",
             rule: "one evaluation = one build whose emitted node graph (read by the independent decoder) is compared with harness-side oracles: (1) always: #reachable nodes <= #nodes of the keys' prefix trie; (2) when the cache counters (hook H2) show zero evictions and the cache has cells: no two reachable nodes have the same signature (final, final output, [(byte, output, class(child))]) and, for sets, #nodes == #states of the minimal acyclic DFA computed by bottom-up right-language classes on the trie; (3) corpora as sets: (trie - emitted)/(trie - minimal) > 0.5; builds: ALL 32768 subsets of {a,b}^<=3 as sets (default geometry) and as two maps each (rotating geometries 10000x2, 0x0, 1x1, 1x3, 7x2, 64x2), random sets/maps to 3000 keys, thorough also all subsets of {a,b,c}^<=2; builds with evictions or without cache are counted and excluded from (2); non-trivial = every build; distinct = by fingerprint",
             assumptions: vec!["the premise 'no eviction' is taken from the cfg-guarded counters in registry.rs; a tree that replaces the cache implementation keeps them at 0, i.e. claims never to evict".into(), "'most of the achievable sharing' is read as a ratio > 0.5; measured ratios are recorded".into()],
-            floors: vec![("builds:premise-no-eviction-observed", 1000), ("builds:sets-compared-with-minimal-dfa", 1000), ("builds:excluded-from-minimality(evictions-or-no-cache)", 10), ("corpora-judged", 2)],
+            floors: vec![("builds:premise-no-eviction-observed", 1000), ("builds:sets-compared-with-minimal-dfa", 1000), ("builds:excluded-from-minimality(evictions-or-no-cache)", 10), ("corpora-judged", 2), ("builds:duplicated-wide-subautomata", 60)],
             exhaustive: Some(true),
         },
     )
